@@ -33,17 +33,18 @@ SEED_ALLOW = {"virocon._nsphere.NSphere._random_unit_sphere_points": "n-D direct
 def run(prog, rep):
     rep.explanation = EXPL
     rep.assumptions = ASSUME
-    chain(prog, rep)
-    rng(prog, rep)
-    family(prog, rep)
-    size(prog, rep)
-    noseed(prog, rep)
+    rep.part(chain, prog, rep)
+    rep.part(rng, prog, rep)
+    rep.part(family, prog, rep)
+    rep.part(size, prog, rep)
+    rep.part(noseed, prog, rep)
     rep.expect_min("C07.chain", 5)
     rep.expect_min("C07.rng", 14)
     rep.expect_min("C07.family", 16)
     rep.expect_min("C07.size", 2)
     rep.expect_min("C07.noseed", 2)
-
+    from .purity import row as _stateless_row
+    rep.part(_stateless_row, prog, rep, "C07", 5)
 
 def chain(prog, rep):
     fn = prog.func(f"{GHM}.draw_sample")
